@@ -139,7 +139,7 @@ Fixpoint pick (b : rbag) (pre l : list rstrand) : option (list rstrand * rstrand
   | s :: r => if can_move b s then Some (rev pre, s, r) else pick b (s :: pre) r
   end.
 
-Definition SF := 400.
+Definition SF := 2000.
 Fixpoint run_bag (fuel : nat) (b : rbag) (n : nat) (o : routs) : option (rbag * nat * routs) :=
   match fuel with 0 => None | S f =>
   match pick b [] (b_strands b) with
@@ -301,7 +301,7 @@ Definition set_nth {A} (i : nat) (x : A) (l : list A) : list A :=
 Inductive robs :=
 | ROEffects (l : list reff) | ROEvents (l : list event) | RODone (b : bool) | ROResolve (code : nat) | RONone.
 
-Definition RF := 400.   (* the fuel the generated case files use *)
+Definition RF := 2000.   (* the fuel the generated case files use *)
 Definition radvance (fuel : nat) (st : rstate) : option rstate :=
   match run fuel [] (r_c st) (r_n st) with
   | None => None
